@@ -793,19 +793,13 @@ impl StoryState {
             copy.current_flow.current_choices = self.current_flow.current_choices.clone();
         }
 
-        // The copy of the state has its own copy of the named flows dictionary,
-        // except with the current flow replaced with the copy above
-        // (Assuming we're in multi-flow mode at all. If we're not then
-        // the above copy is simply the default flow copy and we're done)
+        // The copy of the state has its own copy of the named flows dictionary.
+        // The current flow is never part of that dictionary (switching flows
+        // moves it out), so there is nothing to replace in it.
         if self.named_flows.is_some() {
-            let mut nf = self.named_flows.clone();
-            nf.as_mut().unwrap().insert(
-                copy.current_flow.name.to_string(),
-                copy.current_flow.clone(),
-            );
             copy.alive_flow_names_dirty = true;
 
-            copy.named_flows = nf;
+            copy.named_flows = self.named_flows.clone();
         }
 
         if self.has_error() {
